@@ -364,7 +364,7 @@ func TestCheck(t *testing.T) {
 	sd := gen.Zoo()
 	run.Rule("queries generated over the zoo schema; a seeded failure plan makes 0-3 (type, field, object-set) resolutions fail with plain error / SafeError / ClientError / WrapAsSafeError / safe wrapped in plain / panic, mostly on the selected path; " +
 		"executed under 5 mode configurations (plain, Expensive, batch, mixed incl. fallback/parallel) x schedulers, bare and inside a Rerunner. Execute oracle: failing resolution on the sequential trace => (nil, err), err raised by a planned failure, sanitised errors unprefixed, others prefixed with the response path of an instance of that field; no failure on the trace => result equals the reference. " +
-		"A second schema adds the resolver forms the zoo lacks - paginated field funcs managed by thunder or by the resolver (failing with zero or populated return values), resolvers below a connection's edges, Expensive ones, and mutations (over the websocket as mutate messages) - under the same oracles. " +
+		"A second schema adds the resolver forms the zoo lacks - paginated field funcs managed by thunder or by the resolver (failing with zero or populated return values), failing sort and filter functions (plain and Expensive), resolvers below a connection's edges, Expensive ones, error-only field funcs (plain / batch / batch with fallback), mutations (over the websocket as mutate messages, also failing with context.Canceled itself), and a subscription and a mutation overlapping on a connection with 1-7 middlewares - under the same oracles. " +
 		"Websocket oracle: every error envelope is the exact safe message of a failure on the path, or the generic string (only when some failure on the path is not client-safe), and contains no unsafe token; an initially failing subscription gets exactly one error envelope, one Unsubscribe, then silence under invalidations. Non-trivial = a failure on the selected path; distinct by (query shape, failure kinds, modes of failing fields).")
 	run.Assume("error path separator is not asserted (tokens split on . / space [ ])")
 	schemas := buildSchemas(run, sd)
